@@ -26,13 +26,16 @@ A_REGIONS = ("list memory is split by static type into a core and an observer re
 PROPS = {
     "C01": dict(
         level="proof",
-        functions=CORE_SCHEDULE + CORE_DISPATCH,
-        lemmas=["reach-implies-feasible"],
+        functions=CORE_SCHEDULE + CORE_DISPATCH + ["Schedule.num_scheduled_operations", "Schedule.is_complete",
+                                                  "JobShopInstance.num_operations"],
+        lemmas=["reach-implies-feasible", "complete-iff-every-job-finished"],
         tierb=True,
         trusted=[T_OBSERVERS, T_NUM_MACHINES],
         assumptions=[A_VALID, A_REGIONS,
-                     "`complete after exactly N accepted dispatches` (Schedule.is_complete / num_scheduled_operations, a sum "
-                     "over machine lists) is decided by the bounded run only"],
+                     "`complete after exactly N accepted dispatches`: dispatch's post-condition one-more-operation-scheduled "
+                     "(ghost count = sum of the machine list lengths), Schedule.num_scheduled_operations and is_complete "
+                     "against that count (sum rule), N = JobShopInstance.num_operations; the arithmetic `0 + 1 * N = N` over "
+                     "a whole history is the induction the invariant encodes"],
     ),
     "C02": dict(
         level="proof",
@@ -89,8 +92,9 @@ PROPS = {
                  "both are proved without the definition"],
         assumptions=[A_VALID,
                      "current time = min_start_time(available_operations()) and available_operations() = filter(raw ready "
-                     "operations): the two cached query bodies are tied to these specs by the bounded run (C05 harness), "
-                     "not deductively",
+                     "operations): the cached query bodies are tied to these specs under C05 (current_time exactly when no "
+                     "filter is installed; under a filter through the filter-keeps-now lemmas for the built-in filters, "
+                     "third-party filters by the bounded run only)",
                      "now-monotone is proved for the unfiltered dispatcher and every instance; with built-in filters and "
                      "positive durations the filtered current time equals the unfiltered one (composition lemma), hence is "
                      "monotone too"],
@@ -204,7 +208,36 @@ PROPS = {
     ),
     "C11": dict(level="exploration", functions=[], lemmas=[], tierb=True),
     "C12": dict(level="exploration", functions=[], lemmas=[], tierb=True),
-    "C14": dict(level="exploration", functions=[], lemmas=[], tierb=True),
+    "C14": dict(
+        level="proof",
+        functions=["JobShopInstance.__init__", "JobShopInstance.set_operation_attributes", "JobShopInstance.num_jobs",
+                   "JobShopInstance.num_operations", "JobShopInstance.num_machines$body", "JobShopInstance.is_flexible",
+                   "JobShopInstance.durations_matrix", "JobShopInstance.machines_matrix", "JobShopInstance.max_duration",
+                   "JobShopInstance.max_duration_per_job", "JobShopInstance.max_duration_per_machine",
+                   "JobShopInstance.job_durations", "JobShopInstance.total_duration",
+                   "Dispatcher.dispatch", "Dispatcher.reset", "DispatchingRuleSolver.solve"],
+        lemmas=[],
+        tierb=True,
+        trusted=[T_OBSERVERS,
+                 "functools.cached_property: the body runs once and its value is stored; the instance is not modified "
+                 "afterwards (frames), so the stored value stays the value of the body",
+                 "spec-level sums are ghost prefix-sum arrays ($$cumL job lengths, $$cumD durations within a job, $$cumT job "
+                 "durations) introduced by their recursive definitions (conservative); the verifier's sum rule proves "
+                 "sum(...) == prefix-sum(n) from the two defining equations",
+                 "RawInstance: the operations passed to JobShopInstance are pairwise distinct objects (ghost inverse maps "
+                 "$gj/$gp); with a shared Operation object the numbering property is false for the real code as well"],
+        assumptions=[A_VALID,
+                     "proved: set_operation_attributes / __init__ number the operations densely in job-major order "
+                     "(job_id = j, position_in_job = p, operation_id = sum of earlier job lengths + p) and touch no other "
+                     "object; num_jobs, num_operations, the body of num_machines (largest machine id + 1), is_flexible, "
+                     "durations_matrix, machines_matrix (both branches), max_duration, max_duration_per_job, "
+                     "max_duration_per_machine, job_durations, total_duration equal their definitions; dispatch, reset and "
+                     "the dispatching-rule solver loop have frames that exclude every field and list of the instance",
+                     "bounded only: numpy arrays (padded matrices), operations_by_machine, machine_loads, to_dict / "
+                     "from_matrices / from_taillard_file / JSON round trips, Schedule.to_dict / from_dict / "
+                     "from_job_sequences (acceptance iff acyclic, no hang), immutability under observers, graph builders and "
+                     "environments"],
+    ),
     "C15": dict(
         level="proof",
         functions=["Operation.__eq__", "Operation.__hash__", "ScheduledOperation.__eq__", "Schedule.__eq__",
